@@ -6,6 +6,7 @@ CONSTANTS
   FileModes = {TRUE, FALSE}
   Palettes = {}
   Kinds = {1, 2, 3}
+  RestartResizes = TRUE
   AnonModes = {FALSE}
   AllowWindow = TRUE
   EmitEdges = FALSE
